@@ -17,6 +17,7 @@ from .minimir import Adt, Interp, Panic, Slice, Unsupported, UninitBox
 from .stdmodel import MapVal, StrBuf, deref, tmp_ref
 
 PROGRAMS = [
+    "keys|.[0]", "keys|.[1]", "keys|.[2]", "keys|.[3]", "keys|.[6]", "keys|.[-1]", "keys_unsorted|.[1]", "keys|.[5]", "[keys|.[0,1,2,3]]", ".[][(0,1):]?", ".[(0,1):(2,3)]", "[.[]?|.[(0,1):]?]", ".[(1,0)]?", ".[(0,1)]?", "[.[1:][(0,1)]?]",
     ".", ".a", ".a.b", ".[0]", ".[-1]", ".[1:]", ".[:2]", ".[1:3]", ".a[1:]", ".[]", ".a[]", "..", ".a?", ".[]?", '."a"', '.["a"]', ".a.b.c?", ".[0][0]", ".[2:1]", ".[-2:]",
     ".a,.b", ".[]|.a?", "(.a,.b)|type", ".[] | select(type==\"number\")", ".a as $x | $x", ". as [$a,$b] | $b", ". as {a:$x} | $x",
     "[.[]]", "{a:.a}", "{(.k):1}?", "[.a,.b]", "{a:1,b:[.]}", "[.[]?|type]", "{a,b}", "[..]",
@@ -141,8 +142,8 @@ def rule_evaluators(progs, tier, name="JQEVAL", floor_share=0.5):
         out.append(res)
         I = Interp(P, max_steps=500000, max_depth=500)
         I.features = {"avx2": True, "bmi2": True, "sse4.1": True, "sse4.2": True, "ssse3": True, "sse2": True}
-        progs_ = PROGRAMS if tier == "thorough" else PROGRAMS[::2] + ["..", "map(.+1)", "reverse", "unique", "flatten"]
-        inputs = INPUTS if tier == "thorough" else ["null", "[3,1,2]", '{"a":1,"b":2}', '{"a":1,"a":2}', '"abc"', '[1,"a",null,true,{"a":1},[2]]', '{"a":{"b":[1,2]}}', "1.5"]
+        progs_ = PROGRAMS if tier == "thorough" else PROGRAMS[:15] + PROGRAMS[15::2] + ["..", "map(.+1)", "reverse", "unique", "flatten"]
+        inputs = INPUTS if tier == "thorough" else ["null", "[]", "[3,1,2]", '{"a":1,"b":2}', '{"a":1,"a":2}', '"abc"', '[1,"a",null,true,{"a":1},[2]]', '{"a":{"b":[1,2]}}', "1.5"]
         n_ok = n_skip = n_parse_fail = 0
         skipped = {}
         examples = {}
